@@ -156,6 +156,22 @@ fseek(FILE *f, long off, int whence)
 	return v_write(f) ? -1 : 0;
 }
 
+/* rewind() and clearerr() CLEAR the stream's error indicator (C99 7.19.9.5, 7.19.10.1): a writer that calls them
+ * between a failed write and the close forgets the failure */
+void
+rewind(FILE *f)
+{
+	int s = v_sid(f);
+	if (s >= 0) g_err[s] = 0;
+}
+
+void
+clearerr(FILE *f)
+{
+	int s = v_sid(f);
+	if (s >= 0) g_err[s] = 0;
+}
+
 int
 ferror(FILE *f)
 {
